@@ -29,6 +29,18 @@ class _SimTime(types.SimpleNamespace):
     pass
 
 
+def _clear_dask_caches():
+    """Module-global LRUs of dask-expr (computed set_index divisions, memory usages) are
+    keyed by expression *names*: they survive a run and would make the next run of the same
+    case skip a computation (another event log) or reuse divisions of another frame."""
+    try:
+        from dask.dataframe.dask_expr import _repartition, _shuffle
+        _shuffle.divisions_lru.clear()
+        _repartition.mem_usages_lru.clear()
+    except Exception as e:  # noqa: BLE001
+        raise RuntimeError(f"cannot clear dask-expr caches: {e}") from e
+
+
 @contextlib.contextmanager
 def installed(sim, store=None, scheduler=True):
     """Patch clock, sleep, uuid4, the Dask scheduler and the simfs:// registry."""
@@ -39,6 +51,7 @@ def installed(sim, store=None, scheduler=True):
 
     # dask-expr keeps a WeakValueDictionary of expressions by name: garbage of an earlier
     # run with the same seeded uuids must be gone before this run starts
+    _clear_dask_caches()
     gc.collect()
     gc_was_enabled = gc.isenabled()
     gc.disable()        # finaliser timing must not depend on allocation counts
